@@ -63,11 +63,11 @@ def net_scenario(rng, tier, duplex_bias=False, tx_only_passes=True, big=False):
     # regular processing until everything is through: one canonical round per possible frame
     dt = max(ref.stmin_ns(pa.get('stmin', 0)) or 0, ref.stmin_ns(pb.get('stmin', 0)) or 0, 1000000) + 1
     for _ in range(2 * total_frames + 8):
-        ops.append({'op': 'deliver', 'i': 0, 'j': 1, 'n': 100000})
-        ops.append({'op': 'process', 'i': 1})
-        ops.append({'op': 'deliver', 'i': 1, 'j': 0, 'n': 100000})
-        ops.append({'op': 'process', 'i': 0})
-        ops.append({'op': 'tick', 'dt': dt})
+        ops.append({'op': 'deliver', 'i': 0, 'j': 1, 'n': 100000, 'keep': True})
+        ops.append({'op': 'process', 'i': 1, 'keep': True})
+        ops.append({'op': 'deliver', 'i': 1, 'j': 0, 'n': 100000, 'keep': True})
+        ops.append({'op': 'process', 'i': 0, 'keep': True})
+        ops.append({'op': 'tick', 'dt': dt, 'keep': True})
     return {'ops': ops}
 
 
